@@ -69,7 +69,9 @@ macro_rules! lab_int { ($($t:ty),*) => { $(impl Lab for $t {
 lab_int!(i8, i16, i32, i64, u8, u16, u32, u64, isize, usize);
 
 /// pool of interesting doubles; arrays of type f64p / f32p carry indices into it
-pub const POOL: [f64; 20] = [0.0, -0.0, 1.0, -1.0, 2.0, 0.5, -2.5, 3.0, 1e300, -1e300, 5e-324, f64::INFINITY, f64::NEG_INFINITY, f64::NAN, 7.25, 100.0, 1e-10, 1.0000000000000002, -7.0, 0.1];
+pub const POOL: [f64; 30] = [0.0, -0.0, 1.0, -1.0, 2.0, 0.5, -2.5, 3.0, 1e300, -1e300, 5e-324, f64::INFINITY, f64::NEG_INFINITY, f64::NAN, 7.25, 100.0, 1e-10, 1.0000000000000002, -7.0, 0.1,
+    // cancellation regime, values no f32 represents exactly, the edge of exp's range (labels 20..29)
+    1e-17, -1e-10, -1e-17, 1e-5, 4503599627370497.0, 0.9999999999999999, -0.5, 1.5, 1e-30, 710.0];
 impl Lab for f64 {
     fn from_lab(x: i128) -> Self { x as f64 }
     fn to_lab(&self) -> String {
@@ -188,7 +190,7 @@ macro_rules! with_lab_type {
 /// every operation is also called through its `Result` receiver (the chaining form); the two answers must coincide
 pub fn okr<T: ArrayElement>(a: &Array<T>) -> Result<Array<T>, ArrayError> { Ok(a.clone()) }
 pub fn w2(plain: String, wrapped: String) -> String {
-    if plain == wrapped { plain } else { format!("!wrapper(plain {plain} / through Result {wrapped})") }
+    if plain == wrapped { plain } else { format!("!variant(first form {plain} / second form [Result receiver or other argument spelling] {wrapped})") }
 }
 
 thread_local! { pub static WRAP_MISMATCH: std::cell::Cell<bool> = const { std::cell::Cell::new(false) }; }
